@@ -99,7 +99,7 @@ def write_evidence(prop, tier, master, batch, n_violations, known_hits, wall, ex
             "steps_executed": st.steps,
             "context_switches": st.switches,
             "fault_kinds_fired": dict(sorted(st.faults.items())),
-            "faults_configured_but_not_fired": {"abort": st.aborts_configured - st.faults.get("abort", 0), "io_error": st.io_faults_configured - st.faults.get("io_error", 0)},
+            "faults_configured_but_not_fired": {"abort": st.aborts_configured - st.faults.get("abort", 0), "alloc_failure": st.allocfail_configured - st.faults.get("alloc_failure", 0), "io_error": st.io_faults_configured - st.faults.get("io_error", 0)},
             "probes": dict(sorted(st.probes.items())),
             "operations_by_outcome": dict(sorted(st.op_counts.items())),
             "fraction_of_library_ops_returned_normally_or_with_own_exception": round(st.returned / max(1, st.lib_ops), 4),
